@@ -1210,6 +1210,10 @@ func translate(repo string, t *target) (def string, err error) {
 			if as, ok := n.(*ast.AssignStmt); ok && rhs == nil && len(as.Lhs) == 1 && len(as.Rhs) == 1 && src(as.Lhs[0]) == t.AssignTo {
 				rhs = as.Rhs[0]
 			}
+			// a field of a composite literal (`Timestamp: expr`) counts as an assignment to that field
+			if kv, ok := n.(*ast.KeyValueExpr); ok && rhs == nil && src(kv.Key) == t.AssignTo {
+				rhs = kv.Value
+			}
 			return true
 		})
 		if rhs == nil {
